@@ -98,6 +98,14 @@ class Verifier(Engine):
                     return self._mut_outs + self.flush_raises(st) + [Outcome("normal", st)]
         if isinstance(s.value, (ast.Yield,)):
             return self.s_yield(s.value, st)
+        if isinstance(s.value, ast.YieldFrom):
+            # list reading of generators: `yield from g(...)` appends everything g(...) yields (g under contract: its `result` list). The
+            # callee's effects are taken at the call, not interleaved with the consumer - laziness is not modelled.
+            v = self.as_seq(self.expr(s.value.value, st), st)
+            outs = self.flush_raises(st)
+            acc = st.env["$yielded"]
+            st.env["$yielded"] = self.seq_app(acc, self.coerce(v, acc.ty))
+            return outs + [Outcome("normal", st)]
         self.expr(s.value, st)
         return self.flush_raises(st) + [Outcome("normal", st)]
 
@@ -404,7 +412,7 @@ class Verifier(Engine):
                 r = root(node.func.value)
                 if r:
                     out.add(r)
-            elif isinstance(node, (ast.Yield,)):
+            elif isinstance(node, (ast.Yield, ast.YieldFrom)):
                 out.add("$yielded")
         return out
 
